@@ -23,7 +23,7 @@ EXPLANATION = (
     " C15-a also tabulates HuffmanDecoder::decode_next by the decisions its paths make: the only clean end is fetch_value's Ok(None); a code without a table entry (EOS) is an error; symbols and sub-tables come from the entry found.")
 # every anchor of these rules lives in the h3 crate: thorough tier repeats them on the feature-less build
 EXTRA_CONFIGS = ["h3-plain"]
-RULES = "C15-a Huffman tables vs RFC 7541 App. B, decode_next row table (A11/A3); C15-b integer accumulator bound and truncation (A6/A15); C15-c codec entry points (A11); C15-d end-of-input padding mask evaluated over count 1..8 (extracted-expression evaluation), the end of a string is decided from where the last symbol ended: None only after the walk met the end of the input, decision depends on the pre-walk position and the input bytes (MIR taint), leftover bounded below eight bits (known finding); C15-c also: declared length, H flag and written octets of string encode belong to the same form; Huffman errors propagate"
+RULES = "C15-a Huffman tables vs RFC 7541 App. B, decode_next row table (A11/A3); C15-b integer accumulator bound and truncation, error inventory of prefix_int::decode (A6/A15/A3); C15-c codec entry points, error inventory of prefix_string::decode (A11/A3); C15-d end-of-input padding mask evaluated over count 1..8 (extracted-expression evaluation), the end of a string is decided from where the last symbol ended: None only after the walk met the end of the input, decision depends on the pre-walk position and the input bytes (MIR taint), leftover bounded below eight bits (known finding); C15-c also: declared length, H flag and written octets of string encode belong to the same form; Huffman errors propagate"
 
 HERE = os.path.dirname(os.path.dirname(os.path.abspath(__file__)))
 REF = json.load(open(os.path.join(HERE, "ref", "rfc7541_huffman_lengths.json")))
@@ -388,6 +388,46 @@ def run(ctx):
                       "string encode declares the length of the %s bytes with H = %s and writes the %s bytes: the decoder reads the wrong number of octets "
                       "and the rest of the field section is misparsed" % (root_(lnv), hbit, wr), "", None, p.describe())
         ctx.floor("C15-c", "paths of string encode that write the prefix", n_enc, 1)
+    # ------------------------------------------------------------ C15-b / C15-c nothing the RFC allows is refused: error inventories
+    # prefix_int::decode fails in two ways only - the input ends (the `?` on the byte fetch) and the value leaves the range (Overflow,
+    # decided by the MAX_POWER comparison and nothing else: RFC 7541 5.1 does not forbid leading zero groups);
+    # prefix_string::decode fails only through the integer codec, the length conversion, the declared-length test and the Huffman decoder
+    pid = prog.one(PI + "decode")
+    if pid:
+        hs = pid.loop_heads()
+        exi = pa.Explorer(prog, pid, max_visits=1)
+        errs = [p for p in ru.all_paths(ctx, "C15-b", pid, max_visits=1) if p.end == "return" and not p.ret_shape().startswith("Ok")]
+        for h_ in hs:
+            errs += [p for p in exi.paths(start=h_, stop_at=hs) if p.end == "return" and not p.ret_shape().startswith("Ok")]
+        nerr = 0
+        for p in errs:
+            nerr += 1
+            sh = p.ret_shape()
+            plain = [t for t in p.tests if t[3][0] != "discr"]
+            if sh.startswith("Residual(") and p.outcomes("::get")[-1:] == ["Err"]:
+                continue
+            ok = sh == "Err(Error::Overflow)" and bool(plain) and "MAX_POWER" in plain[-1][1] and expr.cmp_nf(plain[-1][3], plain[-1][2]) is not None
+            ctx.check(ok, "C15-b", pid.key, "prefix_int::decode fails only on truncation and on the MAX_POWER bound",
+                      "prefix_int::decode returns %s on a path decided by %s: an encoding RFC 7541 5.1 allows (e.g. a non-minimal one whose last "
+                      "group is zero) is refused, and with it every string length or index written that way" % (sh, [(t[1][:50], t[2]) for t in plain[-2:]]),
+                      "", None, p.describe())
+        ctx.floor("C15-b", "error returns of prefix_int::decode", nerr, 3)
+    psd = prog.one(P + "decode")
+    if psd:
+        nerr = 0
+        for p in [p for p in ru.all_paths(ctx, "C15-c", psd, max_visits=1) if p.end == "return" and not p.ret_shape().startswith("Ok")]:
+            nerr += 1
+            lt = [t for t in p.tests if t[3][0] != "discr"]
+            src = "integer" if p.outcomes(PI + "decode")[-1:] == ["Err"] else \
+                "length conversion" if p.outcomes("::try_from", "::try_into")[-1:] == ["Err"] else \
+                "huffman" if "Err" in p.outcomes("::next") else \
+                "declared length" if (p.ret_shape() == "Err(Error::UnexpectedEnd)" and lt and (lambda nf: nf is not None and nf[1] == "<" and nf[0][0] == "call" and
+                                                                                               pa.short(nf[0][1]) == "remaining")(expr.cmp_nf(lt[-1][3], lt[-1][2]))) else None
+            ctx.check(src is not None, "C15-c", psd.key, "prefix_string::decode fails only through the integer codec, the declared length and the Huffman decoder",
+                      "prefix_string::decode returns %s on a path decided by %s, which is none of: integer codec error, length conversion, `remaining() < "
+                      "len`, an error of the Huffman decoder - a string RFC 7541 5.2 allows is refused" % (p.ret_shape(), [(t[1][:50], t[2]) for t in lt[-2:]]),
+                      "", None, p.describe())
+        ctx.floor("C15-c", "error returns of prefix_string::decode", nerr, 4)
     # ------------------------------------------------------------ C15-d padding bits examined at end of input
     ce = ru.need(ctx, "C15-d", P + "decode::HuffmanDecoder::check_eof")
     if ce:
